@@ -160,12 +160,115 @@ def check_helper_summaries(run, rule="R1"):
     run.check(ok, rule, fi.qual + "::summary", "shift_time(t, s) == t + s seconds",
               "shift_time body no longer matches its summary: %s" %
               (unparse(rets[0].value) if rets else "?"), fi.loc())
+    fi = m.func(tu + "str_to_time")
+    rets = [n for n in walk_no_nested(fi.node) if isinstance(n, ast.Return)]
+    vals = sorted(unparse(r.value) for r in rets)
+    thens = sorted(unparse(s2.value) for s2 in walk_no_nested(fi.node)
+                   if isinstance(s2, ast.Assign) and
+                   unparse(s2.targets[0]) == "then")
+    plain = vals == ["0", "time.gmtime(calendar.timegm(then))"] and \
+        all(t.startswith("time.strptime(") for t in thens) and thens
+    if plain:
+        run.holds(rule, fi.qual + "::summary", "str_to_time(s) is the plain "
+                  "conversion gmtime(timegm(strptime(s))): no arithmetic on the "
+                  "parsed instant", fi.loc())
+    elif _zone_offset_verdict(run, rule, fi):
+        pass
+    else:
+        run.undecided(rule, fi.qual + "::summary",
+                      "str_to_time is no longer the plain conversion "
+                      "gmtime(timegm(strptime(...))) that every time rule "
+                      "summarises as the identity (returns %s; `then` from %s): "
+                      "whether arithmetic applied to the parsed instant (zone "
+                      "offsets, rounding) has the right sign and size is not "
+                      "decidable by these rules" % (vals, thens), fi.loc())
     fi = m.func(tu + "utc_now")
     rets = [n for n in walk_no_nested(fi.node) if isinstance(n, ast.Return)]
     ok = len(rets) == 1 and unparse(rets[0].value) == \
         "calendar.timegm(time.gmtime())"
     run.check(ok, rule, fi.qual + "::summary", "utc_now() == timegm(gmtime())",
               "utc_now body no longer matches its summary", fi.loc())
+
+
+def _zone_offset_verdict(run, rule, fi):
+    """str_to_time applies arithmetic to the parsed instant.  Decide the one
+    shape that has a definite answer: `gmtime(timegm(then) + c*off)` where `off`
+    is a positive magnitude built from matched digits and negated under a test
+    of the sign character.  A '+hh:mm' designator means local = UTC + hh:mm, so
+    the magnitude of a '+' zone must be SUBTRACTED.  Returns True when a
+    verdict (HOLDS/VIOLATED) was recorded."""
+    m = run.model
+    cfg = cfg_of(fi, m)
+    rets = [r for r in cfg.by_kind("return")
+            if isinstance(r.ast.value, ast.Call) and
+            call_name(r.ast.value) == "gmtime" and r.ast.value.args]
+    if len(rets) != 1:
+        return False
+    arg = rets[0].ast.value.args[0]
+
+    def sym(e):
+        if isinstance(e, ast.Call) and call_name(e) == "timegm" and e.args and \
+                isinstance(e.args[0], ast.Name):
+            return "then"
+        if isinstance(e, ast.Name):
+            return "off:" + e.id
+        return None
+    lin = linear.linearize(arg, sym)
+    if not lin or lin.get("then") != 1:
+        return False
+    offs = [k for k in lin if isinstance(k, str) and k.startswith("off:")]
+    if len(offs) != 1 or set(lin) - {"then", offs[0]}:
+        return False
+    coeff = lin[offs[0]]
+    name = offs[0][4:]
+    flips = []          # (sign character tested, polarity of the flipping branch)
+    magnitude_ok = False
+    for nd in cfg.by_kind("stmt"):
+        s2 = nd.ast
+        if not (isinstance(s2, ast.Assign) and
+                unparse(s2.targets[0]) == name):
+            continue
+        v = s2.value
+        if isinstance(v, ast.Constant) and v.value == 0:
+            continue
+        if isinstance(v, ast.UnaryOp) and isinstance(v.op, ast.USub) and \
+                unparse(v.operand) == name:
+            for e, pol, _ in cfg.guards(nd.id):
+                if isinstance(e, ast.Compare) and len(e.ops) == 1 and \
+                        isinstance(e.ops[0], ast.Eq) and \
+                        isinstance(e.comparators[0], ast.Constant) and \
+                        e.comparators[0].value in ("+", "-"):
+                    flips.append((e.comparators[0].value, pol))
+            continue
+        # positive magnitude: sum of int(<group>) * positive constants
+        pos = True
+        for sub in ast.walk(v):
+            if isinstance(sub, (ast.USub, ast.Sub)):
+                pos = False
+        magnitude_ok = magnitude_ok or (pos and any(
+            isinstance(x, ast.Call) and call_name(x) == "int"
+            for x in ast.walk(v)))
+    if not magnitude_ok or len(flips) != 1:
+        return False
+    ch, pol = flips[0]
+    # sign of `off` when the designator is '+'
+    negated_for_plus = (ch == "+" and pol) or (ch == "-" and not pol)
+    sign_plus = -1 if negated_for_plus else 1
+    effective = coeff * sign_plus
+    key = fi.qual + "::zone-offset-sign"
+    if effective == -1:
+        run.holds(rule, key, "a '+hh:mm' designator is subtracted to reach UTC",
+                  fi.loc(rets[0].ast))
+        return True
+    if effective == 1:
+        run.violated(rule, key,
+                     "a zone designator '+hh:mm' means local = UTC + hh:mm, but "
+                     "str_to_time ADDS the offset of a '+' zone to the parsed "
+                     "local time (and subtracts for '-'): every bound spelled "
+                     "with an offset is shifted by twice the offset, so expired "
+                     "assertions are accepted", fi.loc(rets[0].ast))
+        return True
+    return False
 
 
 # ------------------------------------------------------------------ R1
